@@ -63,4 +63,26 @@ extern bool g_fs_track, g_fs_yield;
 std::string json_escape(const std::string& s);
 } // namespace simint
 
+extern "C"
+{
+  void __tsan_ignore_thread_begin() __attribute__((weak));
+  void __tsan_ignore_thread_end() __attribute__((weak));
+}
+namespace simint
+{
+// While a thread executes simulator code its memory accesses (seen by ThreadSanitizer only through libc interceptors such as
+// memmove/memcpy) are not part of the program under test: the simulator's own state is protected by the baton.
+struct TsanIgn
+{
+  TsanIgn() { if (__tsan_ignore_thread_begin) __tsan_ignore_thread_begin(); }
+  ~TsanIgn() { if (__tsan_ignore_thread_end) __tsan_ignore_thread_end(); }
+  TsanIgn(const TsanIgn&) = delete;
+};
+struct TsanUnIgn // re-enables checking around user code called from inside the simulator (pthread_once callbacks)
+{
+  TsanUnIgn() { if (__tsan_ignore_thread_end) __tsan_ignore_thread_end(); }
+  ~TsanUnIgn() { if (__tsan_ignore_thread_begin) __tsan_ignore_thread_begin(); }
+};
+} // namespace simint
+
 #define SIM_REAL(ret, name, ...) static auto real = simint::real_fn<ret (*)(__VA_ARGS__)>(#name)
